@@ -137,4 +137,27 @@ theorem C20_source_skeletons :
     Gen.Skel.Server_handlePostStream = Expected.Skel.Server_handlePostStream :=
   ⟨rfl, rfl, rfl, rfl, rfl, rfl, rfl, rfl, rfl, rfl, rfl⟩
 
+/-- The request is checked before anything is created — facts proved by `decide` about the
+    skeletons of `handlePostHalt` and `handlePostImport` regenerated from http/server.go: an
+    unparsable lock id, the node's own id, a zero lock id and a node that is not primary are
+    answered before the one `CreateDBIfNotExists`, which comes before `AcquireHaltLock`; an import
+    without a name and an import on a node whose primary context has ended are answered before the
+    database is created, and the creation comes before `Import` (what `Import` does with a body it
+    rejects is the open finding C20-import-creates-db, not covered by this fact). -/
+theorem C20_requests_are_checked_before_anything_is_created :
+    let ix (sk : List (String × String)) (x : String × String) (d : Nat) := (sk.findIdx? (· == x)).getD d
+    let h := Gen.Skel.Server_handlePostHalt
+    let i := Gen.Skel.Server_handlePostImport
+    ix h ("call", "strconv.ParseInt") 1000 < ix h ("call", "s.store.CreateDBIfNotExists") 0 ∧
+    ix h ("if", "id == s.store.ID()") 1000 < ix h ("call", "s.store.CreateDBIfNotExists") 0 ∧
+    ix h ("if", "lockID == 0") 1000 < ix h ("call", "s.store.CreateDBIfNotExists") 0 ∧
+    ix h ("if", "!s.store.IsPrimary()") 1000 < ix h ("call", "s.store.CreateDBIfNotExists") 0 ∧
+    ix h ("call", "s.store.CreateDBIfNotExists") 1000 < ix h ("call", "db.AcquireHaltLock") 0 ∧
+    (h.filter (· == ("call", "s.store.CreateDBIfNotExists"))).length = 1 ∧
+    ix i ("if", "name == \"\"") 1000 < ix i ("call", "s.store.CreateDBIfNotExists") 0 ∧
+    ix i ("call", "s.store.PrimaryCtx") 1000 < ix i ("call", "r.Context().Err") 0 ∧
+    ix i ("call", "r.Context().Err") 1000 < ix i ("call", "s.store.CreateDBIfNotExists") 0 ∧
+    ix i ("call", "s.store.CreateDBIfNotExists") 1000 < ix i ("call", "db.Import") 0 := by
+  decide
+
 end LiteFSVerif.C20
